@@ -82,25 +82,34 @@ func c10ConfChange(c *Check) {
 		} else {
 			c.Result(ok, "C10.G", "accept conf-change proposal (pendingConfIndex store)", fnName(stepLeader), site, req, detail)
 		}
-		// the recorded index is the position the entry will get: lastIndex()+i+1
+		// the recorded index is the position the entry will get: lastIndex()+i+1,
+		// with i the position of the entry being examined (the index used to read m.Entries[i])
 		v := fi.Sym(st.Val)
-		l := LinOf(v)
-		okIdx := l.K == 1
-		nLast, nOther := 0, 0
-		for k, s := range l.S {
-			if s.K == KCall && s.Fn == lastIndex && l.T[k] == 1 {
-				nLast++
-			} else if l.T[k] == 1 {
-				nOther++ // the loop position i
-			} else {
-				okIdx = false
+		var pos *Sym
+		for _, in := range p.liveInstrsOf(stepLeader) {
+			ld, ok := in.(*ssa.UnOp)
+			if !ok {
+				continue
+			}
+			if ia, ok := ld.X.(*ssa.IndexAddr); ok {
+				cont := fi.Sym(ia.X)
+				if cont.K == KCall && cont.Fn != nil && cont.Fn.Name() == "GetEntries" && fi.InstrDominates(ld, st.Instr) {
+					pos = fi.Sym(ia.Index)
+				}
 			}
 		}
-		// rotated loop: i = phi+1, so the linear form is lastIndex + phi + 2
-		if nLast == 1 && nOther == 1 && (l.K == 1 || l.K == 2) {
-			okIdx = true
+		okIdx := false
+		if pos != nil {
+			l := LinOf(v)
+			l.add(LinOf(pos), -1)
+			okIdx = l.K == 1 && len(l.T) == 1
+			for k, s := range l.S {
+				if !(s.K == KCall && s.Fn == lastIndex && l.T[k] == 1) {
+					okIdx = false
+				}
+			}
 		}
-		c.Result(okIdx && nLast == 1, "C10.G", "pendingConfIndex value", fnName(stepLeader), site, "pendingConfIndex <- lastIndex()+i+1 (the index the proposal will occupy)", v.Key())
+		c.Result(okIdx, "C10.G", "pendingConfIndex value", fnName(stepLeader), site, "pendingConfIndex <- lastIndex()+i+1 (the index the proposal will occupy; i = position in m.Entries)", v.Key())
 	}
 	c.Result(nStores == 1, "C10.G", "stepLeader records accepted conf changes", fnName(stepLeader), p.Pos(stepLeader.Pos()), "one pendingConfIndex store on the accept path", fmt.Sprint(nStores))
 	// neutralised proposals: the only store into m.Entries[i] is a literal with just Type: EntryNormal
